@@ -65,4 +65,10 @@ PROPS = {
         'slice': [r'hub\.check', r'env\.slash', r'env\.slashu', r'hub\.withdraw'] + PRICING_KINDS,
         'explanation': 'exact recognition and two-sided pro-rata bounds proved (nlinarith over the order of floors in query_actual_state and calculate_new_withdraw_rate); every CheckSlashing on the implementation is compared with the exact shares',
     },
+    'C17': {
+        'corpus': ['D3.ops'],
+        'families': [pure('swapinfo', 10000, thorough_scale={'count': 80000}), gen('rewards', 30, 120), gen('admin', 10, 100)],
+        'slice': [r'f\.swapinfo', r'hub\.ugi', r'disp\..*', r'inst\.disp'],
+        'explanation': 'swap decision and dispatch split proved for all balances/prices/rates; get_swap_info driven through the real SwapToRewardDenom with fixed balances over the whole price range [1e-18,1e18]; whole index updates on the minichain',
+    },
 }
